@@ -333,31 +333,57 @@ pub fn huge_hasher(rep: &mut Report, all_plans: bool) {
     subject::force(None);
 }
 
-/// Inputs beyond 2 GiB / 4 GiB (thorough tier, best level, hash mode): 32-bit truncations of
-/// lengths or offsets only show up here.
-fn huge(rep: &mut Report) {
+/// Inputs beyond 2 GiB / 4 GiB (best level): 32-bit truncations of lengths, offsets or chunk counters
+/// only show up here. Quick: 2^32+3149 bytes in hash and keyed mode; thorough: also lengths around
+/// 2^31 and 2^32 (prefixes of the same buffer, spec values by the memoising oracle).
+fn huge(rep: &mut Report, thorough: bool) {
     let levels = subject::levels();
     let (lname, level) = levels.last().unwrap().clone();
-    let lens: [usize; 4] = [(1usize << 31) - 1, (1usize << 31) + 1, (1usize << 32) - 1, (1usize << 32) + 1025];
-    let max = *lens.iter().max().unwrap();
-    let data = huge_data(max);
-    let mode = ModeSpec::Hash;
-    let mut oracle = b3spec::StreamOracle::new(mode.spec(), Vec::new());
-    oracle.data = data;
+    let n = (1usize << 32) + 3 * 1024 + 77;
+    let data = huge_data(n);
+    let small = 16 * 65536 + 3 * 1024 + 77;
+    let hm = ModeSpec::Hash;
+    if spec_root_parallel(&hm.spec(), &data[..small], 65536).root_bytes(0, 64) != b3spec::node(&hm.spec(), &data[..small], 0).root_bytes(0, 64) {
+        eprintln!("ORACLE-ANCHOR-FAILED: parallel composition of the spec differs from the recursive definition");
+        std::process::exit(2);
+    }
     subject::force(Some(level));
-    for &n in &lens {
-        let node = oracle.prefix(n);
+    for mode in [ModeSpec::Hash, ModeSpec::Keyed(*vcommon::TEST_KEY)] {
+        let node = spec_root_parallel(&mode.spec(), &data, 1 << 28);
         let mut exp = [0u8; 32];
         exp.copy_from_slice(&node.root_block(0)[..32]);
-        let got = vcommon::catch(|| mode.oneshot(&oracle.data[..n]));
+        let got = vcommon::catch(|| mode.oneshot(&data[..n]));
         rep.inc("evaluations");
         rep.inc("distinct_nontrivial");
         rep.inc("spec_comparisons");
         rep.inc("huge_inputs");
         if got != Ok(exp) {
             let mut rj = case_json(&mode, "A", &lname, n);
+            rj["huge"] = json!(true);
             rj["observed"] = json!(format!("{:?}", got.map(|h| vcommon::hex(&h))));
-            rep.violation("oneshot:hash:huge-input", format!("hash of {} bytes at {}: differs from the spec or panics", n, lname), rj);
+            rep.violation("oneshot:hash:huge-input", format!("{} of {} bytes at {}: differs from the spec or panics", mode.name(), n, lname), rj);
+        }
+    }
+    if thorough {
+        let lens: [usize; 4] = [(1usize << 31) - 1, (1usize << 31) + 1, (1usize << 32) - 1, (1usize << 32) + 1025];
+        let mode = ModeSpec::Hash;
+        let mut oracle = b3spec::StreamOracle::new(mode.spec(), Vec::new());
+        oracle.data = data;
+        for &n in &lens {
+            let node = oracle.prefix(n);
+            let mut exp = [0u8; 32];
+            exp.copy_from_slice(&node.root_block(0)[..32]);
+            let got = vcommon::catch(|| mode.oneshot(&oracle.data[..n]));
+            rep.inc("evaluations");
+            rep.inc("distinct_nontrivial");
+            rep.inc("spec_comparisons");
+            rep.inc("huge_inputs");
+            if got != Ok(exp) {
+                let mut rj = case_json(&mode, "A", &lname, n);
+                rj["huge"] = json!(true);
+                rj["observed"] = json!(format!("{:?}", got.map(|h| vcommon::hex(&h))));
+                rep.violation("oneshot:hash:huge-input", format!("hash of {} bytes at {}: differs from the spec or panics", n, lname), rj);
+            }
         }
     }
     subject::force(None);
@@ -424,14 +450,14 @@ pub fn run(args: &Args, rep: &mut Report) {
     if rep.violations.is_empty() {
         purity(rep);
     }
-    if thorough {
-        huge(rep);
+    if thorough || args.extra.contains_key("huge") {
+        huge(rep, thorough);
     }
     rep.configs.push(subject::config_json());
     rep.rule = format!(
         "every length 0..={} plus the lattice k*1024+d (k<={}, 2^j chunks j<={}, {{4,8,16}}*m chunks; d in -65,-64,-63,-1,0,1,63,64,65) \
          x streams A,B x primary modes (hash, keyed(test key), derive(test context)) x every forced SIMD level; secondary keys/contexts and five degenerate contents (zeros, ones, 64- and 1024-periodic, sparse) \
-         on {} lattice lengths; a purity sweep that overwrites the same input / key / context buffers in place between calls; thorough: hash of 2^31+-1, 2^32-1 and 2^32+1025 bytes; non-trivial = distinct (level, mode, stream, length) with length > 0",
+         on {} lattice lengths; a purity sweep that overwrites the same input / key / context buffers in place between calls; one-shot hash and keyed_hash of 2^32+3149 bytes at the best level (thorough: also 2^31+-1, 2^32-1, 2^32+1025); non-trivial = distinct (level, mode, stream, length) with length > 0",
         full_range(thorough), if thorough { 2048 } else { 512 }, if thorough { 14 } else { 10 }, lite.len()
     );
     for (ti, l) in [(0usize, 0usize), (1, levels.len() - 1), (2, levels.len() / 2)] {
@@ -451,6 +477,15 @@ pub fn replay(v: &Value) -> bool {
         let args = Args { prop: "C01".into(), tier: "quick".into(), seed: subject::seed(), report: String::new(), replay: None, jobs: 1, extra: Default::default() };
         let mut rep = Report::new(&args, "replay", "exploration");
         purity(&mut rep);
+        for x in rep.violations.iter().take(3) {
+            println!("violation {}: {}", x.key, x.summary);
+        }
+        return !rep.violations.is_empty();
+    }
+    if v["huge"].as_bool() == Some(true) {
+        let args = Args { prop: "C01".into(), tier: "quick".into(), seed: subject::seed(), report: String::new(), replay: None, jobs: 1, extra: Default::default() };
+        let mut rep = Report::new(&args, "replay", "exploration");
+        huge(&mut rep, true);
         for x in rep.violations.iter().take(3) {
             println!("violation {}: {}", x.key, x.summary);
         }
